@@ -10,6 +10,7 @@ AB == <<97, 98>>
 E == <<>>
 NamesQ == <<A, B, E>>
 Names2 == <<A, B>>
+NamesAE == <<A, E>>
 NamesT == <<A, B, AB, E>>
 ValsQ  == {<<120>>, <<>>}
 ValsT  == {<<120>>, <<121, 121>>, <<>>}
